@@ -13,4 +13,5 @@ for d in seeded/C*; do
   nf=$(echo "$log" | grep "^VIOLATION" | grep -c "no-failing-input-found")
   if [ "$out" -ge 1 ]; then echo "$id: CAUGHT by $prop  $kinds $([ "$nf" -ge 1 ] && echo '[no-failing-input-found]')"; else echo "$id: MISSED by $prop"; fi
 done
+git checkout -q -- evidence 2>/dev/null    # the runs above rewrote the evidence files on a patched tree: restore the committed ones
 git -C /repo status --short | head -3
